@@ -6,7 +6,7 @@ PROP = dict(
     namespaces=["Comdex.C07"],
     required_theorems=["Comdex.C07.placement_takes_exactly", "Comdex.C07.taken_eq_offer_plus_fee", "Comdex.C07.finish_moves_exactly",
                        "Comdex.C07.fill_pays_demand_coins", "Comdex.C07.terminated_settled", "Comdex.C07.escrow_holds_only_live_orders",
-                       "Comdex.C07.cancellable_after_batch", "Comdex.C07.cancellable_after_batch_of_conserving", "Comdex.C07.lostOf_zero_of_modelled", "Comdex.C07.cancel_all_cancels_every_old_order", "Comdex.C07.mm_cancel_cancels_all", "Comdex.C07.mm_replace_cancels_all",
+                       "Comdex.C07.cancellable_after_batch", "Comdex.C07.cancellable_after_batch_of_conserving", "Comdex.C07.lostOf_zero_of_modelled", "Comdex.C07.cancel_all_cancels_every_old_order", "Comdex.C07.order_keys_unique", "Comdex.C07.mm_index_complete", "Comdex.C07.mm_cancel_cancels_all", "Comdex.C07.mm_replace_cancels_all", "Comdex.C07.mm_cancel_cancels_indexed", "Comdex.C07.migration_preserves_orders", "Comdex.C07.fee_collector_exact", "Comdex.C07.pruning_moves_nothing", "Comdex.C07.ended_order_accounts",
                        "Comdex.C07.mm_cancel_cancels_all_counterexample"],
     harness_tests=["TestC07"],
     trusted_base=[KERNEL_TB, HARNESS_TB,
@@ -14,8 +14,10 @@ PROP = dict(
                   "replaying every generated message / block hook on the real app and comparing ok / not-ok and the full projection "
                   "(orders with offer / remaining / received / open / status / batch, MM indexes, all tracked balances) after every "
                   "message and block; app ids (1-3) and pair ids (1-4) are drawn independently",
-                  "per-order fills, pool flows and dust of the matching engine are observed inputs (C05); so are the tick-rounded "
-                  "price, MMOrderTicks and the stateless price validations",
+                  "per-order fills, pool flows, dust and match price of the matching engine are observed inputs (C05); the tick-fitted "
+                  "order price, the price limits, MMOrderTicks and the denom checks are computed by the model from the message",
+                  "the store migration 1->2 is run by the harness on a store it re-encodes in the legacy/v1 layout (version-1 worlds: "
+                  "no MM orders, no ranged pools)",
                   "the model's order lookup in cancelMMOrder is the REPAIRED one (appId, pairId, id); the lookup as it stands in "
                   "swap.go:559 is kept as a switch of the model only to prove the counterexample and to recognise D4 in the run"],
     assumptions=["per-app generic params (swap fee rate) are fixed over a history",
@@ -35,9 +37,12 @@ META = dict(
          "orderer into the pair escrow (MM orders: the offer coins); ending a live order pays the owner exactly remaining + (reserve - "
          "fee on the executed part) and forwards exactly the fee on the executed part; every ended order satisfies taken = executed "
          "+ refunded + forwarded and the pair escrow holds only the claims of live orders; the owner's cancel of a live order "
-         "placed in an earlier batch always succeeds (given conserving match results); MsgCancelMMOrder / MsgMMOrder end every order "
-         "of the owner's MM index for every app id / pair id with the repaired lookup, and a concrete counterexample (app 2 / pair 1) "
-         "for the lookup as it stands in swap.go:559 (D4). Monitors on real data: every user's balance change is explained by the "
+         "placed in an earlier batch always succeeds (given conserving match results); index completeness (unique order keys, every "
+         "live MM order in its owner's index) is an inductive invariant of every history, hence MsgCancelMMOrder / MsgMMOrder end EVERY "
+         "market-making order of the owner in the pair (no premise about the index) for every app id / pair id with the repaired lookup, "
+         "and a concrete counterexample (app 2 / pair 1) for the lookup as it stands in swap.go:559 (D4); the pair's swap-fee collector "
+         "moves in every step by exactly the fee on the executed portions of the orders that ended; the store migration 1->2 is the "
+         "identity on every order amount. Monitors on real data: every user's balance change is explained by the "
          "order / request / farm records, escrow and fee collector exactness, cancellability, MM cancel completeness.",
     note="D4 (swap.go:559 swapped lookup) was found by this check and is fixed in /repo; before the fix the run reported DIFF + MON mm_cancel_all.",
 )
